@@ -35,13 +35,13 @@ TRUSTED = c01.TRUSTED + ["translator/inventory.py (AST scan of fs-mutating calls
 PY = "/venv/bin/python"
 
 
-def runner(kind, inp, out, fault=None, count=False):
+def runner(kind, inp, out, fault=None, count=False, hashseed=0):
     with scratch() as cd:
         cfg = {"kind": kind, "inp": inp, "outdir": out, "cwd": cd, "walk_seed": None, "clock": None, "fault": fault, "count_ops": count}
         cf = os.path.join(cd, "cfg.json")
         json.dump(cfg, open(cf, "w"))
         env = dict(os.environ)
-        env.update({"PYTHONHASHSEED": "0", "PYTHONPATH": VERIF})
+        env.update({"PYTHONHASHSEED": str(hashseed), "PYTHONPATH": VERIF})
         p = subprocess.run([PY, "-W", "ignore", "-m", "harness.c06_runner", cf], cwd=VERIF, env=env, stdout=subprocess.PIPE, stderr=subprocess.PIPE, timeout=300)
     for line in p.stdout.decode("utf-8", "replace").split("\n"):
         if line.startswith("RESULT "):
@@ -121,6 +121,37 @@ def one_case(ctx, kind, inp, user_seed, points, check_model=True):
         for r in results:
             if r:
                 return r
+        # two faults in one run (an error that is survived, then a second fault): only in the thorough tier / search mode
+        if (ctx.broken or not ctx.quick) and trace:
+            opens = [i for i, (k, _a, _b) in enumerate(trace) if k == "open"][:8]
+
+            def double_run(job):
+                i, delta, mode2 = job
+                work = os.path.join(d, "w2_%d_%d_%s" % (i, delta, mode2))
+                shutil.copytree(out, work)
+                try:
+                    runner(kind, inp, work, [{"op": i, "mode": "exn", "scope": "createoutput"},
+                                             {"op": i + delta, "mode": mode2, "scope": "createoutput"}])
+                    now = read_tree(work)
+                finally:
+                    shutil.rmtree(work, ignore_errors=True)
+                for p, old in t1.items():
+                    if now.get(p) != old and now.get(p) != tref.get(p):
+                        return {"kind": kind, "input": inp, "user_seed": user_seed, "double_fault": [i, delta, mode2], "file": p,
+                                "detail": "pre-existing file %s is neither old nor complete new after an injected error at createoutput op %d "
+                                          "followed by a second fault (%s) %d operations later" % (p, i, mode2, delta),
+                                "finding_key": "c05:%s" % kind}
+                return None
+
+            djobs = [(i, delta, m2) for i in opens for delta in (1, 2, 3) for m2 in ("kill", "exn")]
+            with ThreadPoolExecutor(max_workers=8) as ex:
+                dres = list(ex.map(double_run, djobs))
+            for j in djobs:
+                ctx.case((kind, json.dumps(inp, sort_keys=True), user_seed, "double", j))
+                ctx.count("double_fault")
+            for r in dres:
+                if r:
+                    return r
         # model prediction for interruptions inside createoutput
         if check_model and ctx.km and nco:
             fs0 = [[os.path.join(ref, p), c] for p, c in sorted(t1.items())]
